@@ -29,7 +29,6 @@ KF_NOTE = {
     "KF-C03-pv-sticky": "ptrrecv-nonaddr",
     "KF-C03-depth-limit": "deep",
     "KF-C03-quoted-string-escape": "quoted-string-special",
-    "KF-C03-vm-negzero": "negzero (interpreter)",
 }
 
 
@@ -47,8 +46,6 @@ def classify(feats, backend, impl_r, std_o):
         return "KF-C03-depth-limit"
     if "quoted-string-special" in feats:
         return "KF-C03-quoted-string-escape"
-    if backend == "vm" and "negzero" in feats:
-        return "KF-C03-vm-negzero"
     return None
 
 
@@ -142,9 +139,7 @@ def run(ctx):
                 continue
             st["val"] += 1
             if e[-1] == "1":
-                cs = True
-                st["cache_sensitive"] += 1
-                continue
+                st["cache_sensitive"] += 1      # both pv values of one type requested: tied too since fix ea86c56 (cache per pv)
             if e[:-1] != r:
                 st["val_bad"] += 1
                 viol.append(("val", cid, "Marshal (%s) differs from the model: impl %s / model %s" % (prims, L.show(r), L.show(e)),
@@ -162,7 +157,7 @@ def run(ctx):
                 continue
             kf = classify(feats, backend, r, o)
             e = m.get("E:%s:%s" % (backend, flags))
-            explained = e is not None and (e[:-1] == r or e[-1] == "1")
+            explained = e is not None and e[:-1] == r
             if kf and kf in known and explained:
                 seen_known.setdefault(kf, cid)
                 continue
